@@ -517,7 +517,9 @@ fn out_str(out: &Out, s: &Spec, before: &RecDevice) -> String {
             let end = reg.iter().position(|b| *b == 0).unwrap_or(len);
             let same = if reg[..end].is_ascii() { st.as_bytes() == &reg[..end] } else { String::from_utf8_lossy(&reg[..end]) == st.as_str() };
             if same {
-                format!("ok {}", hex(&reg[..end]))
+                // second field: the UTF-8 bytes of the returned String, compared with the model of
+                // from_utf8_lossy (lean/CamVerif/Model/RegUtf8.lean)
+                format!("ok {}|{}", hex(&reg[..end]), hex(st.as_bytes()))
             } else {
                 format!("ok NOT-LOSSY-OF-PREFIX:{}", hex(st.as_bytes()))
             }
@@ -592,7 +594,7 @@ impl Runner {
         ));
         self.rep.count(&format!("len/{}", s.len));
         if let (Op::StrValue, Out::Str(st)) = (&op, &out) {
-            self.rep.count(if st.is_ascii() { "str.value/ascii-prefix(raw-byte oracle)" } else { "str.value/non-ascii-prefix(lossy self-comparison only)" });
+            self.rep.count(if st.is_ascii() { "str.value/ascii-prefix(raw-byte oracle)" } else if st.contains('\u{fffd}') { "str.value/non-ascii-prefix with U+FFFD (lossy model compared)" } else { "str.value/non-ascii-prefix, well-formed UTF-8 (lossy model compared)" });
         }
         if let Op::IntSet(v) = &op {
             if out == Out::Unit && matches!(s.len, 1 | 2 | 4) && !in_range(*v, s.len as usize, s.signed) {
@@ -1480,6 +1482,37 @@ fn main() {
         for fill in [0u8, b'x', 0xff] {
             let dev = r.fresh_dev(idx, &mut rng, Some(fill));
             r.case(idx, Op::StrValue, dev, "str-fill-image");
+        }
+        // device images assembled from UTF-8 fragments: well-formed 2/3/4-byte sequences, lone
+        // continuations, overlongs, surrogates, code points above U+10FFFF, truncated sequences,
+        // bytes that are never a lead; cut at random places (from_utf8_lossy model, Model/RegUtf8.lean)
+        const FRAGS: &[&[u8]] = &[
+            b"a", b"Z~", &[0xc3, 0xa9], &[0xdf, 0xbf], &[0xc2, 0x80], &[0xe2, 0x82, 0xac], &[0xe0, 0xa0, 0x80],
+            &[0xed, 0x9f, 0xbf], &[0xee, 0x80, 0x80], &[0xef, 0xbf, 0xbd], &[0xf0, 0x9f, 0x98, 0x80], &[0xf0, 0x90, 0x80, 0x80],
+            &[0xf4, 0x8f, 0xbf, 0xbf], &[0xf1, 0x80, 0x80, 0x80], &[0x80], &[0xbf], &[0xc0, 0x80], &[0xc1, 0xbf], &[0xe0, 0x80, 0x80],
+            &[0xe0, 0x9f, 0xbf], &[0xf0, 0x80, 0x80, 0x80], &[0xf0, 0x8f, 0xbf, 0xbf], &[0xed, 0xa0, 0x80], &[0xed, 0xbf, 0xbf],
+            &[0xf4, 0x90, 0x80, 0x80], &[0xf5, 0x80, 0x80, 0x80], &[0xf8, 0x88, 0x80, 0x80, 0x80], &[0xff], &[0xfe], &[0xc3], &[0xe2], &[0xe2, 0x82],
+            &[0xf0], &[0xf0, 0x9f], &[0xf0, 0x9f, 0x98], &[0xc3, 0x41], &[0xe2, 0x82, 0x41], &[0xe2, 0x41, 0x82], &[0xf0, 0x9f, 0x41, 0x80],
+            &[0xf0, 0x9f, 0x98, 0x41], &[0xe1, 0x80], &[0xec, 0xbf, 0xbf], &[0xf3, 0xbf, 0xbf, 0xbf], &[0xf4, 0x80], &[0xc2, 0xc2, 0x80], &[0xe2, 0xe2, 0x82, 0xac],
+        ];
+        for i in 0..(if thorough { 3000 } else { 300 }) {
+            let mut dev = r.fresh_dev(idx, &mut rng, None);
+            let off = (s.addr - dev.base) as usize;
+            let mut img: Vec<u8> = Vec::new();
+            while img.len() < l {
+                if i % 3 == 2 && rng.chance(1, 6) {
+                    img.push(0x80 + rng.below(0x80) as u8);
+                } else {
+                    img.extend_from_slice(FRAGS[rng.below(FRAGS.len() as u64) as usize]);
+                }
+            }
+            // mostly NUL-free so that the whole register is decoded; sometimes a NUL cuts a sequence
+            if l > 0 && rng.chance(1, 4) {
+                let k = rng.below(l as u64) as usize;
+                img[k] = 0;
+            }
+            dev.img[off..off + l].copy_from_slice(&img[..l]);
+            r.case(idx, Op::StrValue, dev, "str-utf8-fragments");
         }
     }
 
